@@ -12,6 +12,7 @@ mod u3b;
 mod u4;
 mod u5;
 mod u5c;
+mod u5e;
 mod u5d;
 mod u6;
 mod u6b;
@@ -53,6 +54,12 @@ fn main() {
     ("u5c", "run") => u5c::run(rest),
     ("u5c", "show") => u5c::show(rest),
     ("u5c", "replay") => u5c::replay(rest),
+    ("u5e", "list") => u5e::list(rest),
+    ("u5e", "run") => u5e::run(rest),
+    ("u5e", "one") => u5e::one(rest),
+    ("u5e", "show") => u5e::show(rest),
+    ("u5e", "time") => u5e::time(rest),
+    ("u5e", "replay") => u5e::replay(rest),
     ("u5d", "find") => u5d::find(rest),
     ("u5d", "replay") => u5d::replay(rest),
     ("u5d", "findmirror") => u5d::find_mirror(rest),
